@@ -302,6 +302,41 @@ def rule_coverage(program, ctx):
                         ctx.ok(rid, cfg.ast_of(n), "matched => queued (unless vetoed by check_output)")
 
 
+def rule_deliver(program, ctx, prop=P, rid="C05.deliver"):
+    ctx.rule(
+        rid,
+        "BaseSubscription.notify: the only ways to leave without queueing the event are a falsy check_event verdict and a falsy output-validator verdict - no other early "
+        "exit (e.g. on the state of the subscription's own query task: an event accepted while the stored query is still running is in neither the snapshot nor the "
+        "live stream)",
+        floor=1,
+    )
+    fn = program.func("nostr_relay.storage.base:BaseSubscription.notify")
+    cfg = cfg_of(fn)
+    puts = cfg.stmt_nodes(lambda s: any(call_name(c).endswith("queue.put") or call_name(c).endswith("queue.put_nowait") for c in own_calls(s)), kinds=("stmt",))
+    if not puts:
+        ctx.bad(finding_func(prop, rid, fn, "notify no longer queues the event", text="def notify(...) :: put"))
+        return
+    m_names = {s.targets[0].id for s in walk_no_nested(fn) if isinstance(s, ast.Assign) and isinstance(s.targets[0], ast.Name) and isinstance(s.value, ast.Call) and call_name(s.value) == "self.check_event"}
+
+    def refusal(e, pol):
+        # the falsy side of the match verdict / of the output validator
+        if (isinstance(e, ast.Name) and e.id in m_names) or (isinstance(e, ast.Call) and call_name(e) == "self.check_event"):
+            return not pol
+        if isinstance(e, ast.Call) and "check_output" in ast.unparse(e.func):
+            return not pol
+        return False
+
+    allowed = test_edges(cfg, refusal)
+    for p in puts:
+        allowed[p] = set(NORMAL)
+    path = must_pass(cfg, allowed, [cfg.exit], kinds=NORMAL)
+    if path:
+        where = next((cfg.ast_of(n) for n in path if cfg.ast_of(n) is not None and cfg.kind_of(n) == "test"), fn)
+        ctx.bad(finding_at(prop, rid, where, "notify can return without delivering although the event matches and the output validator does not object: " + " -> ".join(cfg.describe_path(path)[:4])))
+    else:
+        ctx.ok(rid, fn, "an event is dropped only for `no match` or a refusing output validator")
+
+
 def run(program, ctx):
     from ..lib import rule_awaited
 
@@ -311,6 +346,7 @@ def run(program, ctx):
     rule_once(program, ctx)
     c06.rule_broadcast(program, ctx, prop=P, rid="C05.broadcast")
     rule_coverage(program, ctx)
+    rule_deliver(program, ctx)
     c13.rule_liveness(program, ctx, prop=P, rid="C05.liveness")
     c13.rule_replace(program, ctx, prop=P, rid="C05.replace")
     from . import c01
@@ -320,6 +356,7 @@ def run(program, ctx):
     c01._ids_are_hex_ok(program, ctx, ridn, P, lower=True)
     c01.rule_tagindex(program, ctx, prop=P, rid="C05.tagindex")
     c13.rule_subid(program, ctx, prop=P, rid="C05.subid")
+    c13.rule_cancel(program, ctx, prop=P, rid="C05.cancel")
     ctx.not_decided += [
         "exactly-once delivery and absence of loss under all interleavings of tasks and connections (schedule exploration is another family)",
         "check_event's set-of-booleans logic being equivalent to the stored predicates for every event (e.g. delegated authors)",
